@@ -54,6 +54,20 @@ def getCollectionValue(collection, what):
         return None
 
 
+def getDestructuringValues(value, count, pos):
+    if value.isList():
+        vals = value.value
+    elif value.isSet():
+        vals = value.getSortedItems()
+    else:
+        raise CklRuntimeError(
+            ValueString("ERROR"),
+            f"Cannot destructure {value.type()}",
+            pos,
+        )
+    return [vals[i] if i < len(vals) else NULL for i in range(count)]
+
+
 def getFuncallString(fn, args):
     return f"{fn.name}({args.toStringAbbrev()})"
 
@@ -170,7 +184,7 @@ class NodeAssignDestructuring:
         if values.isList():
             values = values.value
         elif values.isSet():
-            values = values.value.sortedValues()
+            values = values.getSortedItems()
         else:
             raise CklRuntimeError(
                 ValueString("ERROR"),
@@ -775,10 +789,9 @@ class NodeFor:
                     if len(self.identifiers) == 1:
                         environment.put(self.identifiers[0], value)
                     else:
-                        if value.isList():
-                            vals = value.value
-                        elif value.isSet():
-                            vals = value.value.sortedValues()
+                        vals = getDestructuringValues(
+                            value, len(self.identifiers), self.pos
+                        )
                         for i in range(len(self.identifiers)):
                             environment.put(self.identifiers[i], vals[i])
 
@@ -810,10 +823,9 @@ class NodeFor:
                 if len(self.identifiers) == 1:
                     environment.put(self.identifiers[0], value)
                 else:
-                    if value.isList():
-                        vals = value.value
-                    elif value.isSet():
-                        vals = value.getSortedItems()
+                    vals = getDestructuringValues(
+                        value, len(self.identifiers), self.pos
+                    )
                     for i in range(len(self.identifiers)):
                         environment.put(self.identifiers[i], vals[i])
                 result = self.block.evaluate(environment)
@@ -840,10 +852,9 @@ class NodeFor:
                 if len(self.identifiers) == 1:
                     environment.put(self.identifiers[0], value)
                 else:
-                    if value.isList():
-                        vals = value.value
-                    elif value.isSet():
-                        vals = value.getSortedItems()
+                    vals = getDestructuringValues(
+                        value, len(self.identifiers), self.pos
+                    )
                     for i in range(len(self.identifiers)):
                         environment.put(self.identifiers[i], vals[i])
                 result = self.block.evaluate(environment)
@@ -879,10 +890,9 @@ class NodeFor:
                 if len(self.identifiers) == 1:
                     environment.put(self.identifiers[0], val)
                 else:
-                    if val.isList():
-                        vals = val.value
-                    elif val.isSet():
-                        vals = val.value.sortedValues()
+                    vals = getDestructuringValues(
+                        val, len(self.identifiers), self.pos
+                    )
                     for i in range(len(self.identifiers)):
                         environment.put(self.identifiers[i], vals[i])
                 result = self.block.evaluate(environment)
@@ -918,10 +928,9 @@ class NodeFor:
                 if len(self.identifiers) == 1:
                     environment.put(self.identifiers[0], val)
                 else:
-                    if val.isList():
-                        vals = val.value
-                    elif val.isSet():
-                        vals = val.value.sortedValues()
+                    vals = getDestructuringValues(
+                        val, len(self.identifiers), self.pos
+                    )
                     for i in range(len(self.identifiers)):
                         environment.put(self.identifiers[i], vals[i])
                 result = self.block.evaluate(environment)
